@@ -55,7 +55,7 @@ REGISTRY['C11'] = {
     'level_text': 'In-memory RRDP state only: the next delta is derived from the staged changes by the merge table of unit c10_staged (publish/update/withdraw on top of earlier staged changes, withdraw carrying the hash of the object visible in RRDP); a session reset restarts at serial 1 without deltas and takes session/snapshot from the reset; truncation by size keeps the longest prefix of the delta list that fits the snapshot size; truncation by age/number keeps a prefix and respects the configured maximum whenever the minimum-retention rules do not apply (the unconditional maximum is a recorded finding, F5). Files on disk, hashes, the rsync directory switch and apply_rrdp_updated (by-value HashMap loop) are not decided.',
     'level_note': 'DeltaElements/SnapshotData sizes uninterpreted; the clock is an input (is_younger / is_older uninterpreted); VecDeque length < usize::MAX and no usize overflow of the summed delta sizes are preconditions.',
     'design_ref': 'DESIGN.md section 10.4 (as built) and section 5 / C11',
-    'not_covered': ['RrdpServer::apply_rrdp_updated (iterates a HashMap by value; a Kani harness over real URIs/Base64/HashMap gave no verdict in 25 min and was dropped)', 'files on disk, hashes, notification switch, rsync tmp/current/old switch', 'apply_rrdp_staged frame (HashMap::entry)'],
+    'not_covered': ['RrdpServer::apply_rrdp_updated outside one iteration of its loop (by-value HashMap iteration, serial + 1, push_front; a Kani harness over real URIs/Base64/HashMap gave no verdict in 25 min and was dropped); one iteration is verified: the staged changes of a publisher go to the snapshot and, unchanged, to the next delta', 'files on disk, hashes, notification switch, rsync tmp/current/old switch', 'apply_rrdp_staged frame (HashMap::entry)'],
 }
 REGISTRY['C12'] = {
     'v': ['c12_rfc6492', 'c12_rfc8181', 'c03_child_revoke'],
@@ -79,7 +79,7 @@ REGISTRY['C14'] = {
     'level_text': 'Per-key contracts on the real text: a re-issue raises the revision number by exactly one, builds CRL and manifest from the same revision (numbers and validity windows agree), leaves the payload set unchanged, builds the CRL from the key\'s own (pruned) revocations and the manifest from CRL + exactly the published objects; a class is due iff any of its key sets (current, staging, old) is due and a re-issue covers all of them. Whether the maintenance tasks run and whether windows contain the present (wall clock) is not decided.',
     'level_note': 'PublishedCrl::build, ManifestBuilder::build_new_mft / with_objects, Revocations::remove_expired are assumed externals (rpki-rs builders, signer); time is an input.',
     'design_ref': 'DESIGN.md section 10.4 (as built) and section 5 / C14',
-    'not_covered': ['CaObjects::re_issue (HashMap::values_mut loop: outside engine V; K harness would need real signed objects)', 'renewal of ROAs/ASPAs/BGPsec certificates (create_renewal)', 'validity windows contain the present'],
+    'not_covered': ['CaObjects::re_issue outside one iteration of its loop (the values_mut() iteration itself; the per-class decision and the sticky `required` flag are verified on the lifted loop body)', 'renewal of ROAs/ASPAs/BGPsec certificates (create_renewal)', 'validity windows contain the present'],
 }
 REGISTRY['C15'] = {
     'v': ['c15_taproxy'],
@@ -126,10 +126,10 @@ NOT_APPLICABLE = [
     {'property_id': 'C19', 'reason': 'status store is a cache written through storage under an RwLock from network paths; the only pure kernel is Vec::retain over URI values, nothing proof-level can be offered (DESIGN.md section 6)'},
 ]
 REGISTRY['C02'] = {
-    'v': ['c02_childcerts', 'c02_issue', 'c02_rcvd', 'c02_unsuspend', 'c02_wants', 'c04_keystate'],
+    'v': ['c02_childcerts', 'c02_issue', 'c02_rcvd', 'c02_unsuspend', 'c02_entitle', 'c02_wants', 'c04_keystate'],
     'k': [],
-    'level_text': 'Per-operation contracts on the issuing side only: (1) issue_cert/make_issued_cert issue limit(issuer-certificate ∩ entitlement), refuse anything outside the issuing certificate, and the signed certificate carries exactly the recorded set; (2) the per-class certificate store keeps one record per child key (issued XOR suspended) under every mutator, whatever the suspension history; (3) shrink_overclaiming handles every over-claiming certificate (issued and suspended) by re-issuing exactly limit(new ∩ old) inside the new certificate, or revoking when nothing is left, and touches nothing else; activate_key re-issues every certificate in its own category; (4) process_rcvd_cert_current puts that update in the same event set as CertificateReceived (unbounded, all stores, loop invariants); (5) append_child_certify may only be called with resources inside the current entitlement of that child; process_child_certify and process_child_unsuspend (re-issue after a suspension) discharge that precondition; (6) idempotence kernel: a received certificate clears the open request (set_incoming_cert / apply_received_cert, unit c04_keystate) and wants_update asks for nothing when the certificate already carries the entitled resources and not-after time, and always asks when the resources differ. Convergence and idempotence of parent-child synchronisation over histories are not decided.',
+    'level_text': 'Per-operation contracts on the issuing side only: (1) issue_cert/make_issued_cert issue limit(issuer-certificate ∩ entitlement), refuse anything outside the issuing certificate, and the signed certificate carries exactly the recorded set; (2) the per-class certificate store keeps one record per child key (issued XOR suspended) under every mutator, whatever the suspension history; (3) shrink_overclaiming handles every over-claiming certificate (issued and suspended) by re-issuing exactly limit(new ∩ old) inside the new certificate, or revoking when nothing is left, and touches nothing else; activate_key re-issues every certificate in its own category; (4) process_rcvd_cert_current puts that update in the same event set as CertificateReceived (unbounded, all stores, loop invariants); (5) append_child_certify may only be called with resources inside the current entitlement of that child; process_child_certify and process_child_unsuspend (re-issue after a suspension) discharge that precondition; (6) the entitlement answer for a class (entitlement_class) carries exactly current-certificate ∩ child entitlement under the class name the child knows, and is absent when that is empty, the class has no current key or the child is unknown; (7) idempotence kernel: a received certificate clears the open request (set_incoming_cert / apply_received_cert, unit c04_keystate) and wants_update asks for nothing when the certificate already carries the entitled resources and not-after time, and always asks when the resources differ. Convergence and idempotence of parent-child synchronisation over histories are not decided.',
     'level_note': 'ResourceSet algebra (contains/intersection/is_empty/difference), RequestResourceLimit::apply_to, make_tbs_cert, CertInfo::create and the signer are assumed contracts on externals; HashMap key model assumed for KeyIdentifier; Config is a one-field stub in c02_rcvd; c02_wants: chrono timestamps assumed within +-2^60, IEEE division assumed total, Rsync::ends_with uninterpreted.',
     'design_ref': 'DESIGN.md section 10.4 (as built) and section 5 / C02',
-    'not_covered': ['the 10% / one-week re-request thresholds of wants_update (f64 quotient left uninterpreted)', 'KeyState::append_entitlement_events (iterator adapter loop), in particular which key id is requested in RollOld', 'entitlement class computation (certauth.rs:986-1084)', 'sync driver (manager.rs), taproxy/tasigner issuance', 'convergence in a bounded number of syncs; idempotence of a further sync (history properties)', 'publication of the ChildCertificatesUpdated event (covered per operation under C03/C04 units)'],
+    'not_covered': ['the 10% / one-week re-request thresholds of wants_update (f64 quotient left uninterpreted)', 'KeyState::append_entitlement_events (iterator adapter loop), in particular which key id is requested in RollOld', 'the not-after time offered in the entitlement answer (clock comparisons)', 'sync driver (manager.rs), taproxy/tasigner issuance', 'convergence in a bounded number of syncs; idempotence of a further sync (history properties)', 'publication of the ChildCertificatesUpdated event (covered per operation under C03/C04 units)'],
 }
